@@ -1,13 +1,25 @@
 #!/bin/sh
-# usage: tools/try_seed.sh <patch.diff> <tier> <ID> [<ID> ...]   — apply to /repo, run checks (no evidence), revert.
+# usage: tools/try_seed.sh <patch.diff> <tier> <ID> [<ID> ...]
+# Runs the checks against the patched code and prints what they report.
+# Default: a scratch worktree of /repo HEAD with the patch applied (XPMC_REPO points the checks at it; /repo is untouched,
+# so several of these can run side by side).  With SEED_INPLACE=1 the patch is applied to /repo itself and reverted
+# afterwards (git -C /repo apply … ; git -C /repo checkout -- .), which is how the brief describes it.
 PATCH=$1; TIER=$2; shift 2
 cd /verif || exit 2
-if [ -n "$(git -C /repo status --porcelain --untracked-files=no)" ]; then echo "/repo is dirty; refusing"; exit 2; fi
-git -C /repo apply "$PATCH" || { echo "PATCH DOES NOT APPLY: $PATCH"; exit 3; }
-trap 'git -C /repo checkout -- . ' EXIT INT TERM
+if [ -n "$SEED_INPLACE" ]; then
+  if [ -n "$(git -C /repo status --porcelain --untracked-files=no)" ]; then echo "/repo is dirty; refusing"; exit 2; fi
+  git -C /repo apply "$PATCH" || { echo "PATCH DOES NOT APPLY: $PATCH"; exit 3; }
+  trap 'git -C /repo checkout -- . ' EXIT INT TERM
+else
+  WT=$(mktemp -d /tmp/xpmc-seed-XXXXXX); rmdir "$WT"
+  git -C /repo worktree add -q --detach "$WT" HEAD || exit 2
+  trap 'git -C /repo worktree remove --force "$WT" 2>/dev/null; rm -rf "$WT"' EXIT INT TERM
+  git -C "$WT" apply "$PATCH" || { echo "PATCH DOES NOT APPLY: $PATCH"; exit 3; }
+  export XPMC_REPO="$WT"
+fi
 for id in "$@"; do
   out=$(timeout 3000 bin/check "$id" --tier "$TIER" --no-evidence 2>&1); rc=$?
   nv=$(printf '%s\n' "$out" | grep -c '^VIOLATION')
   echo "== $id rc=$rc violations=$nv"
-  printf '%s\n' "$out" | grep -A3 '^VIOLATION' | head -${SEED_LINES:-12}
+  printf '%s\n' "$out" | grep -A3 '^VIOLATION\|HARNESS' | head -${SEED_LINES:-12}
 done
